@@ -24,7 +24,7 @@ RULE = ('two threads race to create their first (in-memory) store under a contro
         'discovered by a calibration run and ALL C(2k,k) interleavings of the two guard '
         'regions are executed (exhaustive over that space), plus random schedule words over '
         'the whole constructor, an untraced barrier-start stress run and the sequential '
-        'orders (second thread after creation / after close); oracle: exactly one thread '
+        'orders (second thread after creation / after close / after failing opens by the owner / after the owning thread has terminated); oracle: exactly one thread '
         'succeeds and a non-owner is always refused; a class is an outcome per schedule '
         'prefix shape')
 ASSUMPTIONS = [
@@ -60,6 +60,7 @@ def required(tier):
                         'sequential:other-thread-after-close:refused',
                         'sequential:other-thread-after-owner-failed-open:refused',
                         'sequential:other-thread-after-subclass-create:refused',
+                        'sequential:other-thread-after-owner-thread-exited:refused',
                         'guard-interleaving:one-ok-one-refused'],
             'counters': {'guard_interleavings_run': 1, 'random_schedules_run': 100,
                          'stress_rounds': 100},
@@ -369,8 +370,22 @@ def sequential(Store, rec, case0):
     if 'active_in_thread' in SubStore.__dict__:
         delattr(SubStore, 'active_in_thread')
     Store.active_in_thread = None
+    # the owner is a worker thread that has already terminated: this (main) thread is a
+    # different, still-living thread (its identifier cannot have been recycled) -> refused
+    run_other('owner-is-worker')
+    if res.get('owner-is-worker') == 'ok':
+        try:
+            Store.create().close()
+            res['after-owner-thread-exited'] = 'ok'
+        except RuntimeError:
+            res['after-owner-thread-exited'] = 'refused'
+        except Exception as e:  # noqa: BLE001
+            res['after-owner-thread-exited'] = f'error:{type(e).__name__}'
+    else:
+        res['after-owner-thread-exited'] = f"worker could not create: {res.get('owner-is-worker')}"
+    Store.active_in_thread = None
     for tag in ('after-create', 'after-owner-failed-open', 'after-close',
-                'after-subclass-create'):
+                'after-subclass-create', 'after-owner-thread-exited'):
         rec.ev()
         if res.get(tag) != 'refused':
             rec.violation(f'a second thread created a store {tag} by the owner thread',
